@@ -74,7 +74,7 @@ def tasks(tier):
     return out
 
 
-def run_case(task, enc, raw, errors, cuts, maxread, intr=None):
+def run_case(task, enc, raw, errors, cuts, maxread, intr=None, pause=None):
     env = E.Env(Chooser(()))
     link = None
     obs = {}
@@ -103,6 +103,10 @@ def run_case(task, enc, raw, errors, cuts, maxread, intr=None):
             # what a signal handler that raises does to a call blocked in select()/poll(): e.g. the user's Ctrl-C
             raise KeyboardInterrupt()
         for i, p in enumerate(pieces):
+            if pause is not None and i == pause + 1:
+                # the peer pauses longer than the reader's timeout after piece `pause`: the waiting call ends in
+                # TIMEOUT (having consumed nothing) and the program calls again
+                t += 7.0
             link.w(p, at=t)
             if intr == i:
                 env.add('fn', interrupt, at=t + 0.005)
@@ -126,6 +130,10 @@ def run_case(task, enc, raw, errors, cuts, maxread, intr=None):
                     return fn()
                 except KeyboardInterrupt:
                     obs['interrupted'] = obs.get('interrupted', 0) + 1
+                except TIMEOUT:
+                    if pause is None:
+                        raise
+                    obs['timed_out'] = obs.get('timed_out', 0) + 1
             raise RuntimeError('interrupted three times')
         try:
             if mid is not None and mid not in (b'(', '(') and mid.strip():
@@ -208,17 +216,24 @@ def cases(task):
         for maxread in ((1, 2000) if q else (1, 3, 2000)):
             for k in range(0, maxcuts + 1):
                 for cuts in itertools.combinations(range(1, len(raw)), k):
-                    yield enc, raw, errors, cuts, maxread, None
+                    yield enc, raw, errors, cuts, maxread, None, None
                     if k and not task.get('aio') and task['transport'] != 'popen' and maxread != 1:
                         # the call that is waiting after piece i is aborted by an exception (not EOF/TIMEOUT), then retried
                         for i in range(k):
-                            yield enc, raw, errors, cuts, maxread, i
+                            yield enc, raw, errors, cuts, maxread, i, None
+                        # ... or ends in TIMEOUT because the peer pauses after piece i, then the program calls again
+                        for i in range(k):
+                            yield enc, raw, errors, cuts, maxread, None, i
 
 
 def run_task(task):
     acc = Acc()
-    for enc, raw, errors, cuts, maxread, intr in cases(task):
-        obs, viol = run_case(task, enc, raw, errors, cuts, maxread, intr)
+    for enc, raw, errors, cuts, maxread, intr, pause in cases(task):
+        obs, viol = run_case(task, enc, raw, errors, cuts, maxread, intr, pause)
+        if obs.get('timed_out'):
+            acc.flags['call_timed_out_then_called_again'] += 1
+            if cuts[pause] in char_boundaries(raw, enc, errors):
+                acc.flags['timed_out_while_decoder_holds_partial_char'] += 1
         if obs.get('interrupted'):
             acc.flags['call_aborted_then_retried'] += 1
             if cuts[intr] in char_boundaries(raw, enc, errors):
@@ -238,8 +253,11 @@ def run_task(task):
             key = '%s%s:%s:%s:%s' % (task['transport'], '+asyncio' if task.get('aio') else '', enc, errors, viol[0])
             if intr is not None:
                 key += ':after-aborted-call'
-            acc.violation(key, 'stream %r cuts %r maxread %d%s: %s' % (raw, cuts, maxread, '' if intr is None else ', call aborted by KeyboardInterrupt after piece %d and retried' % intr, viol[1]),
-                          dict(task=task, errors=errors, cuts=list(cuts), maxread=maxread, intr=intr))
+            if pause is not None:
+                key += ':after-timed-out-call'
+            acc.violation(key, 'stream %r cuts %r maxread %d%s%s: %s' % (raw, cuts, maxread, '' if intr is None else ', call aborted by KeyboardInterrupt after piece %d and retried' % intr,
+                                                                        '' if pause is None else ', peer pauses beyond the timeout after piece %d, call repeated' % pause, viol[1]),
+                          dict(task=task, errors=errors, cuts=list(cuts), maxread=maxread, intr=intr, pause=pause))
     acc.states += 1
     acc.sample(dict(task=task, stream=repr(STREAMS[task['stream']][1]), cuts=[1, 4], errors='strict', maxread=2000))
     return acc
@@ -250,9 +268,10 @@ def replay(spec):
     spec = unjson(spec)
     task = spec['task']
     enc, raw, errs = STREAMS[task['stream']]
-    obs, viol = run_case(task, enc, raw, spec['errors'], tuple(spec['cuts']), spec['maxread'], spec.get('intr'))
+    obs, viol = run_case(task, enc, raw, spec['errors'], tuple(spec['cuts']), spec['maxread'], spec.get('intr'), spec.get('pause'))
     out = {'observation': {k: repr(v) for k, v in obs.items()}, 'violation': None}
     if viol:
         out['violation'] = {'key': '%s%s:%s:%s:%s%s' % (task['transport'], '+asyncio' if task.get('aio') else '', enc, spec['errors'], viol[0],
-                                                         ':after-aborted-call' if spec.get('intr') is not None else ''), 'msg': viol[1]}
+                                                         (':after-aborted-call' if spec.get('intr') is not None else '')
+                                                         + (':after-timed-out-call' if spec.get('pause') is not None else '')), 'msg': viol[1]}
     return out
